@@ -1,5 +1,6 @@
 """C02 FEB waiters are always woken.  Same model/harness as C01; scripts biased to many waiters of each kind on one word."""
 from . import _feb_common as fc
+from . import _feb_free as fr          # extension D: free-running tier (M4)
 
 LEVEL = "proof"
 
@@ -26,7 +27,12 @@ def run(ctx):
                        "while others stayed blocked")
     ctx.assumptions += ["'resumes' = the released task returns from its call before the runtime is quiescent again; that a ready task "
                         "eventually runs is C08"]
+    # extension D (M4): free-running programs, logged histories judged by the acceptor extracted from Feb/History.v
+    ctx.coq_properties("Properties/Properties_C02_hist.v")
+    fr.run_free(ctx, quick, prop_words="C02")
 
 
 def replay(ctx, path):
+    if fr.is_free_replay(path):
+        return fr.replay_file(ctx, path)
     fc.replay_file(ctx, path)
